@@ -352,6 +352,12 @@ def initial_passage_family(rep, n):
                 problems.append(f"the engine cannot load the compiled story: {str(e)[:140]}")
         except BaseException:  # noqa  (author code failing at run time is not C12's matter)
             pass
+        for imp_ in story.get("imports", []):
+            try:
+                orig_parse = getattr(pyast.parse, "__wrapped__", pyast.parse)
+                orig_parse(imp_)
+            except (SyntaxError, ValueError):
+                problems.append(f"the compiled story lists {imp_!r} among its imports; it is not Python, so no engine can load the story")
         try:
             if json.loads(json.dumps(story, allow_nan=False)) != story:
                 problems.append("the story changes in a JSON round trip")
@@ -400,5 +406,31 @@ def symlink_start_probe(rep, label="c12-symlink"):
     finally:
         os.chdir(cwd)
         shutil.rmtree(d, ignore_errors=True)
+    rep.coverage.setdefault("families", {})[label] = {"cases": n}
+    rep.coverage["evaluations"] = rep.coverage.get("evaluations", 0) + n
+
+
+def import_lines_probe(rep, label="c12-imports"):
+    """a story the compiler accepts lists only Python among its imports (the engine executes them as they stand)"""
+    from bardic.compiler.compiler import BardCompiler
+    n = 0
+    for head in ("from the hills a wind blows", "  import os", "import x // note", "from x import (", "import 9", "import os\nfrom here to there",
+                 "# title\n\nimport os\nfrom math import floor", "from . import y", "import os, sys"):
+        text = head + "\n:: Start\nhi\n"
+        n += 1
+        try:
+            with quiet():
+                story = BardCompiler().compile_string(text)
+        except (SyntaxError, ValueError):
+            continue
+        except Exception as e:  # noqa
+            rep.violations.append({"cls": None, "family": label, "what": f"compile raised {type(e).__name__}", "source": text})
+            continue
+        for imp_ in story.get("imports", []):
+            try:
+                compile(imp_, "<import>", "exec")
+            except (SyntaxError, ValueError):
+                rep.violations.append({"cls": None, "family": label, "source": text,
+                                       "what": f"the compiled story lists {imp_!r} among its imports; it is not Python, so no engine can load the story"})
     rep.coverage.setdefault("families", {})[label] = {"cases": n}
     rep.coverage["evaluations"] = rep.coverage.get("evaluations", 0) + n
